@@ -1,9 +1,12 @@
 ------------------------------ MODULE O2OEnum ------------------------------
 (* C02: enum conversions, requirement layer (DESIGN Appendix C).
-   in == [vs |-> Seq([shape |-> "unit"|"tuple"|"named", it |-> VItem, fs |-> Seq(FItem)]), dflt |-> BOOLEAN,
+   in == [vs |-> Seq([shape |-> "unit"|"tuple"|"named", it |-> VItem, fs |-> Seq(FItem),
+                      vg |-> Nat]),   \* variant-level #[ghosts(..)] entries: fields only the counterpart variant has (Into supplies them, From ignores them)
+          dflt |-> BOOLEAN,
           eg |-> Nat]        \* enum-level #[ghosts(X<j>: {..})] entries: counterpart-only variants converted to a given value by From *)
 EXTENDS O2OSyntax, TLC
-VItems == {"none", "ren", "ghostd", "ghost", "hint_tuple", "hint_struct", "hint_unit", "hint_tuple_ded"}
+VItems == {"none", "ren", "vexpr", "ghostd", "ghost", "hint_tuple", "hint_struct", "hint_unit", "hint_tuple_ded"}
+\* vexpr: a unit variant with variant-level expressions: #[into(RV<i>, {expr})] (Into yields the value of the expression) and #[from(RV<i>, {expr})]
 \* hint_tuple_ded: a default #[type_hint(as Unit)] written first + #[type_hint(T| as ())] dedicated to each counterpart (the dedicated one counts)
 FItems == {"none", "ren", "expr", "renexpr", "swap", "swapexpr", "ghostd"}
 \* renexpr: the counterpart field is named (by name or index) AND an inline expression is given;
@@ -14,7 +17,7 @@ IsSwapF(f) == f \in {"swap", "swapexpr"}
 N2S(i) == ToString(i)
 
 VName(i) == "V" \o N2S(i)
-CVName(in, i) == IF in.vs[i].it = "ren" THEN "RV" \o N2S(i) ELSE VName(i)
+CVName(in, i) == IF in.vs[i].it \in {"ren", "vexpr"} THEN "RV" \o N2S(i) ELSE VName(i)
 IsGhostV(v) == v.it \in {"ghostd", "ghost"}
 \* payload form on the counterpart side
 CForm(v) == CASE v.it \in {"hint_tuple", "hint_tuple_ded"} -> "tuple" [] v.it = "hint_struct" -> "named" [] v.it = "hint_unit" -> "unit" [] OTHER -> v.shape
@@ -27,6 +30,8 @@ Mirror(v, j) == CHOOSE m \in Mapped(v) : PosF(v, m) = Cardinality(Mapped(v)) - 1
 TargetF(v, j) == IF IsSwapF(v.fs[j]) THEN Mirror(v, j) ELSE j
 CF(v, j) == IF CForm(v) = "named" THEN (IF IsRenF(v.fs[j]) \/ v.shape = "tuple" THEN "r" \o N2S(TargetF(v, j)) ELSE "x" \o N2S(j))
             ELSE N2S(PosF(v, TargetF(v, j)))
+\* counterpart-only payload fields supplied by variant-level ghosts: named y<k>, or the positions after the mapped fields
+VGLeaf(v, k) == IF CForm(v) = "named" THEN "y" \o N2S(k) ELSE N2S(Cardinality(Mapped(v)) + k - 1)
 Tag(i, j, x) == "t" \o N2S(i) \o "_" \o N2S(j) \o "(" \o x \o ")"
 
 WellFormed(in) ==
@@ -41,9 +46,12 @@ WellFormed(in) ==
        /\ (CForm(v) = "unit" /\ v.shape # "unit") => Mapped(v) = {}
        /\ (CForm(v) # "unit") => (Mapped(v) # {} \/ v.shape = "unit")
        /\ (v.shape = "unit" => v.it \notin {"hint_unit"})
+       /\ (v.it = "vexpr" => v.shape = "unit")
        \* positional counterpart payload: ghosts only trailing (same-position is ambiguous otherwise, DESIGN 8.1);
        \* with a named counterpart payload (type_hint(as {})) every mapped field names its target, so ghosts may stand anywhere
        /\ CForm(v) = "tuple" => \A a, b \in DOMAIN v.fs : a < b /\ v.fs[a] = "ghostd" => v.fs[b] = "ghostd"
+       \* variant-level ghosts complete a payload that exists
+       /\ (v.vg > 0 => v.shape # "unit" /\ CForm(v) # "unit" /\ ~IsGhostV(v))
   \* a ghost variant without default needs the default case for Into
   /\ (\E i \in DOMAIN in.vs : in.vs[i].it = "ghost") => in.dflt
   /\ (\E i \in DOMAIN in.vs : ~IsGhostV(in.vs[i]))
@@ -64,6 +72,10 @@ IntoExp(in, i) ==
   LET v == in.vs[i] IN
   IF v.it = "ghostd" THEN [variant |-> "GHOSTDEFAULT" \o N2S(i), leaves |-> {}]
   ELSE IF v.it = "ghost" THEN [variant |-> "DEFAULTCASE", leaves |-> {}]
+  ELSE IF v.it = "vexpr" THEN [variant |-> "GHOSTDEFAULT" \o N2S(500 + i), leaves |-> {}]     \* the value of the variant-level expression (a marker)
   ELSE [variant |-> CVName(in, i),
-        leaves |-> {[leaf |-> CF(v, j), val |-> IF HasExprF(v.fs[j]) THEN Tag(i, j, "S." \o OwnF(v, j)) ELSE "S." \o OwnF(v, j)] : j \in Mapped(v)}]
+        leaves |-> {[leaf |-> CF(v, j), val |-> IF HasExprF(v.fs[j]) THEN Tag(i, j, "S." \o OwnF(v, j)) ELSE "S." \o OwnF(v, j)] : j \in Mapped(v)}
+                   \cup {[leaf |-> VGLeaf(v, k), val |-> "vg" \o N2S(i) \o "_" \o N2S(k) \o "()"] : k \in 1..v.vg}]
+\* From of the counterpart-only variant X<j>: the value the enum-level ghosts entry gives (the marker variant EG<j> of the deriving enum)
+FromGhostExp(j) == [variant |-> "EG" \o N2S(j), leaves |-> {}]
 =============================================================================
